@@ -20,7 +20,7 @@ import pytz
 from vf.core import Ctx, cfg_text, main_wrapper, Machinery
 from vf.realcode import unfold_lines
 from vf.props.c13 import transitions, secs
-from icalendar import Event, FreeBusy, Alarm, Calendar
+from icalendar import Event, FreeBusy, Alarm, Calendar, Todo
 from icalendar.timezone import tzp
 
 UTC = ZoneInfo("UTC")
@@ -28,6 +28,10 @@ E0 = datetime(1970, 1, 1)
 HARD = ["UTC", "Europe/Berlin", "America/New_York", "US/Eastern", "Etc/GMT+5", "Etc/UTC", "GMT", "Europe/Kyiv", "Europe/Kiev",
         "Australia/Lord_Howe", "Pacific/Apia", "Asia/Kathmandu", "America/St_Johns", "Africa/Casablanca", "Europe/Dublin",
         "America/Argentina/Buenos_Aires", "Antarctica/Troll", "Asia/Tehran", "Pacific/Chatham", "America/Indiana/Knox"]
+
+
+class Stamp(datetime):
+    """a datetime subclass, as pandas.Timestamp, pendulum.DateTime, freezegun's FakeDatetime are"""
 
 
 def wall_min(d):
@@ -60,7 +64,15 @@ def observe(kind, dt, key, src):
     """write dt (zoned) in a property of the given kind, read it back -> row for the trace"""
     # every other row hands additional parameters to add(): the zone tag of the value is not one of them and must survive
     extra = {"X-VERIF": "1", "RANGE": "THISANDFUTURE"} if (wall_min(dt)[1] + len(key)) % 2 else None
-    if kind == "single":
+    if kind == "single" and extra is None and ((wall_min(dt)[1] + len(key)) % 4 == 0 or key == "UTC"):
+        # the slot has a history: the component was parsed with a value in another zone (or in UTC), which the setter then replaces
+        which = (wall_min(dt)[1] // 4) % 3
+        name = ("DTSTART", "DTEND", "DUE")[which]
+        old = ("DTSTART;TZID=America/New_York:20240310T013000", "DTSTART:20240310T013000Z", "DTSTART;TZID=Asia/Kolkata;X-OLD=1:20240310T013000")[(wall_min(dt)[0] + len(key)) % 3]
+        cls = Todo if name == "DUE" else Event
+        c = cls.from_ical(f"BEGIN:{cls.name}\r\nUID:1\r\n{old}\r\n{old.replace('DTSTART', name) if name != 'DTSTART' else 'SUMMARY:s'}\r\nEND:{cls.name}\r\n")
+        setattr(c, name, dt)
+    elif kind == "single":
         c = Event()
         c.add("dtstart" if extra is None else "recurrence-id", dt, parameters=extra)
         name = "DTSTART" if extra is None else "RECURRENCE-ID"
@@ -123,7 +135,7 @@ def run(ctx: Ctx):
                         # the wall clock reading just before and after, also inside a gap
                         walls.add(u.replace(tzinfo=None) + timedelta(hours=1))
                         walls.add(u.replace(tzinfo=None) - timedelta(hours=1))
-                for _ in range(4 if ctx.quick else 12):
+                for _ in range((4 if ctx.quick else 12) * (6 if tzid == "UTC" else 1)):
                     walls.add(datetime(1900, 1, 2) + timedelta(seconds=rnd.randrange(0, 200 * 365 * 86400)))
                 for naive in sorted(walls):
                     naive = naive.replace(microsecond=0, fold=0)      # the wire cannot carry a fold: the provider's default answer counts
@@ -185,11 +197,20 @@ def run(ctx: Ctx):
                                         continue
                                     ev.append(row2)
                                     meta.append({**case, "kind": "period-end", "span": str(span)})
-                # UTC-forced properties
+                # UTC-forced properties: a random wall time and, where the zone has one, a wall time inside a repeated hour in
+                # both readings (fold 0/1 on a zoneinfo object), as a plain datetime and as a datetime subclass
                 naive = datetime(2024, rnd.randint(1, 12), rnd.randint(1, 28), rnd.randint(0, 23), rnd.randint(0, 59), rnd.randint(0, 59))
-                dt = tzp.localize(naive, tz)
-                inst = wall_min(dt.astimezone(UTC))
-                for name in ("DTSTAMP", "CREATED", "LAST-MODIFIED", "ACKNOWLEDGED"):
+                forced = [(naive, tzp.localize(naive, tz))]
+                if tzid != "UTC" and tzid in available_timezones():
+                    zi = ZoneInfo(tzid)
+                    for t in (sel[:2] if sel else []):
+                        u = (datetime(1970, 1, 1, tzinfo=UTC) + timedelta(seconds=t + 600)).astimezone(zi)
+                        w = u.replace(tzinfo=None, fold=0)
+                        for fold in (0, 1):
+                            cand = w.replace(tzinfo=zi, fold=fold)
+                            forced.append((w, Stamp(*cand.timetuple()[:6], tzinfo=zi, fold=fold) if fold ^ (t % 2) else cand))
+                for (naive, dt), name in [(f, n) for f in forced for n in ("DTSTAMP", "CREATED", "LAST-MODIFIED", "ACKNOWLEDGED")]:
+                    inst = wall_min(dt.astimezone(UTC))
                     c = Alarm() if name == "ACKNOWLEDGED" else Event()
                     if name == "ACKNOWLEDGED":
                         c.ACKNOWLEDGED = dt
@@ -203,8 +224,8 @@ def run(ctx: Ctx):
                     ev.append({"k": "utc", "name": name, "instant_in": inst, "has_z": bool(dts) and dts[0][1] == "Z", "tzid": (ps or {}).get("TZID", ""),
                                "instant_text": text_wall(dts[0][0]) if dts else [],
                                "instant_out": wall_min(out.astimezone(UTC)) if out.tzinfo else []})
-                    meta.append({"tzid": tzid, "name": name, "provider": prov, "wall": naive.isoformat()})
-                    ctx.case((prov, tzid, name), True)
+                    meta.append({"tzid": tzid, "name": name, "provider": prov, "wall": naive.isoformat(), "fold": dt.fold, "type": type(dt).__name__})
+                    ctx.case((prov, tzid, name, naive.isoformat(), dt.fold), True)
     finally:
         tzp.use_default()
     if len(ev) < 500:
